@@ -25,6 +25,9 @@ def main():
     import gen_geo
     r6 = gen_geo.generate(os.path.join(GEN, 'Geo.lean'))
     print('generated:', {'Geo': r6['unsupported']})
+    import gen_life
+    r7 = gen_life.generate(os.path.join(GEN, 'Life.lean'))
+    print('generated:', {'Life': r7['unsupported']})
     for extra in ('tables_xml',):
         try:
             mod = __import__(extra)
